@@ -15,6 +15,11 @@ The driver records the leaf truth table of every package / unversioned pair (obs
 objects) and the yielded packages in order; RepoQuery_Trace computes the answer with the spec's Eval and judges
 Missing / Spurious / Duplicate / SorterOrder / Raised (prefix Pairs_ unversioned, Stack_ stacks).
 
+Updates    : RepoListing_MC model-checks the listing caches (categories / packages / versions) under
+              notify_add_package / notify_remove_package; seeded histories of such updates interleaved with queries
+              run on mutable SimpleTrees (after an initial full scan) and are judged by the stateful trace spec
+              (contents at query time).  Names listed without versions hold no package.  One engine is an on-disk
+              ebuild repository whose package directories also hold file names that are not valid versions.
 Carve-outs: versioned=False is exercised with a package class for the unversioned objects (raw_pkg_cls), as
 ebuild repositories do; with the default (bare (cat, pkg) tuples) attribute restrictions cannot match at all —
 noted in the report, not judged.  Unversioned queries are not combined with stacks (the yielded pair cannot be
